@@ -171,12 +171,16 @@ def pattern (domain : List Char) : List Char := patGo domain.reverse none
 
 /-! ## Host normalisation in the generated server -/
 
-/-- The value of `host` handed to `domain_router.at(..)`, given `a.host()`:
-    `.trim_end_matches('.').replace('.', "/").chars().rev().collect()`. -/
-def normHost (h : List Char) : List Char :=
-  ((trimDots h).map (fun c => if c = '.' then '/' else c)).reverse
+/-- `s.strip_suffix('.').unwrap_or(s)`: one trailing dot, if any, is dropped. -/
+def stripDot (s : List Char) : List Char :=
+  if s.getLast? = some '.' then s.dropLast else s
 
-/-! ## Semantic model of `matchit` 0.9 on the pattern family of `matchit_pattern`
+/-- The value of `host` handed to `domain_router.at(..)`, given `host = a.host()`:
+    `host.strip_suffix('.').unwrap_or(host).replace('.', "/").chars().rev().collect()`. -/
+def normHost (h : List Char) : List Char :=
+  ((stripDot h).map (fun c => if c = '.' then '/' else c)).reverse
+
+/-! ## Semantic model of `matchit` 0.9.2 on the pattern family of `matchit_pattern`
 
 A pattern is a `/`-separated list of segments; a segment is a literal, or a literal prefix
 followed by one `{name}` that ends the segment; the last segment may instead end with `{*name}`.
@@ -274,17 +278,107 @@ inductive Ins where
   | ok | conflict | unsupported | panic
   deriving Repr, DecidableEq
 
-/-- Insert every route in order (`detect_domain_conflicts`, and the generated `domain_router()`).
-    `acc` = routes inserted so far with their index. Failed inserts leave the router unchanged. -/
+/-! ### `Node::insert`: when does it answer `Conflict`?
+
+`matchit` keeps its routes in a compressed trie whose shape, as long as every earlier `insert`
+succeeded, is determined by the set of routes. The function below replays the walk of
+`Node::insert` over that set instead of over the tree: `S` holds, for the position reached so
+far, what is left of every earlier route that passes through it. Besides the genuine conflicts
+(same route; two different wildcards at the same position) it reproduces the one "prefix/suffix"
+check of matchit 0.9.2 that is reachable with our routes: when a `{param}` that is followed by
+further segments is attached to a node without wildcard child, `insert` compares against
+*everything* that follows the parameter (`remaining.slice_off(wildcard.end)`) and answers
+`Conflict` if `prefix_wild_child_in_segment` holds for the node — also for routes that share no
+path (e.g. `moc/b{p}` then `moc/{s}/ba{q}`). -/
+
+/-- A route as the trie sees it: bytes, `{param}` (names are normalised away), `{*catch_all}`. -/
+inductive Tok where
+  | c (ch : Char)
+  | par
+  | star
+  deriving Repr, DecidableEq
+
+def Seg.toks : Seg → List Tok
+  | .lit s => s.map .c
+  | .param pre _ => pre.map .c ++ [.par]
+  | .catchAll pre _ => pre.map .c ++ [.star]
+
+def toks : List Seg → List Tok
+  | [] => []
+  | [s] => s.toks
+  | s :: ss => s.toks ++ .c '/' :: toks ss
+
+def Tok.isWild : Tok → Bool
+  | .c _ => false
+  | _ => true
+
+def startsWild (r : List Tok) : Bool := match r with | t :: _ => t.isWild | [] => false
+def startsStar (r : List Tok) : Bool := match r with | .star :: _ => true | _ => false
+
+/-- `wild_child_in_segment` along one route: a `{param}` is reached before any `/`. -/
+def reachesParam : List Tok → Bool
+  | [] => false
+  | .par :: _ => true
+  | .star :: _ => false
+  | .c ch :: r => ch != '/' && reachesParam r
+
+/-- Common static prefix of two routes (an edge never contains a wildcard). -/
+def commonStatic : List Tok → List Tok → List Tok
+  | .c x :: a, .c y :: b => if x = y then .c x :: commonStatic a b else []
+  | _, _ => []
+
+def staticPrefix : List Tok → List Tok
+  | .c x :: a => .c x :: staticPrefix a
+  | _ => []
+
+/-- The label of the trie edge shared by the routes in `G` (which all start with the same byte). -/
+def edge : List (List Tok) → List Tok
+  | [] => []
+  | r :: rs => rs.foldl commonStatic (staticPrefix r)
+
+def leadChars (S : List (List Tok)) : List Char :=
+  (S.filterMap (fun r => match r with | .c x :: _ => some x | _ => none)).eraseDups
+
+/-- `Node::prefix_wild_child_in_segment` of the node at the current position; `slash` = its
+    prefix ends with `/`. -/
+def pwcis : Nat → List (List Tok) → Bool → Bool
+  | 0, _, _ => false
+  | fuel + 1, S, slash =>
+    if !slash then S.any reachesParam
+    else (leadChars S).any (fun x =>
+      let G := S.filter (fun r => match r with | .c y :: _ => x == y | _ => false)
+      let q := edge G
+      let G' := G.map (·.drop q.length)
+      if q.getLast? = some (.c '/') then pwcis fuel G' true else G'.any reachesParam)
+
+def maxLen (S : List (List Tok)) : Nat := S.foldl (fun m r => max m r.length) 0
+
+/-- Does `insert` of route `R` answer `Conflict`, given what is left (`S`) of the earlier routes
+    through the current position? `slash`: the text consumed so far ends with `/`; `root`: nothing
+    consumed so far (`prefix_wild_child_in_segment` is `false` for a root with empty prefix). -/
+def insChk : List (List Tok) → List Tok → Bool → Bool → Bool
+  | S, [], _, _ => S.any (·.isEmpty)
+  | S, t :: R, slash, root =>
+    let next := S.filterMap (fun r => match r with
+      | t' :: r' => if t' = t then some r' else none
+      | [] => none)
+    match t with
+    | .c ch => if !next.isEmpty then insChk next R (ch == '/') false else false
+    | .par =>
+      if S.any startsWild then (if S.any startsStar then true else insChk next R false false)
+      else !R.isEmpty && !root && pwcis (maxLen S + 1) S slash
+    | .star => S.any startsWild
+
+/-- Insert every route in order (`detect_domain_conflicts`, and the generated `domain_router()`),
+    up to the first failure (the verdict is decided there). `acc` = routes inserted so far. -/
 def insertAll : List (List Char) → Nat → List (Nat × List Seg) → List Ins × List (Nat × List Seg)
   | [], _, acc => ([], acc)
   | p :: ps, i, acc =>
     match parsePat p with
-    | none => let (r, a) := insertAll ps (i + 1) acc; (.unsupported :: r, a)
+    | none => ([.unsupported], acc)
     | some segs =>
-      if paramCount segs ≥ 26 then let (r, a) := insertAll ps (i + 1) acc; (.panic :: r, a)
-      else if acc.any (fun q => conflict q.2 segs) then
-        let (r, a) := insertAll ps (i + 1) acc; (.conflict :: r, a)
+      if paramCount segs ≥ 26 then ([.panic], acc)
+      else if insChk (acc.map (fun q => toks q.2)) (toks segs) false true then ([.conflict], acc)
       else let (r, a) := insertAll ps (i + 1) (acc ++ [(i, segs)]); (.ok :: r, a)
 
 /-- `Router::at`: the matching route that is searched first. -/
@@ -330,6 +424,8 @@ structure RouteOut where
   host : List Char
   each : List Bool
   hit : Option Nat
+  /-- some pattern makes `normalize_params` panic (pavexc inserts every pattern, even after a conflict) -/
+  panics : Bool
 
 /-- What compile-time conflict detection plus the generated router do for a set of guards and the
     value of `a.host()`. -/
@@ -344,7 +440,8 @@ def route (gs : List (List Char)) (h : List Char) : RouteOut :=
     ins := ins
     host := path
     each := pats.map (fun p => matches1 p path)
-    hit := if ins.all (· == .ok) then atRoutes routes path else none }
+    hit := if ins.all (· == .ok) then atRoutes routes path else none
+    panics := pats.any (fun p => match parsePat p with | some segs => paramCount segs ≥ 26 | none => false) }
 
 /-! ## Specification: the documented grammar and meaning of a guard -/
 
@@ -382,10 +479,6 @@ inductive LabelsG : Bool → List Char → Nat → Prop
 inductive Grammar : List Char → Prop
   | relative {body : List Char} {n : Nat} : LabelsG true body n → n ≤ 253 → Grammar body
   | absolute {body : List Char} {n : Nat} : LabelsG true body n → n ≤ 253 → Grammar (body ++ ['.'])
-
-/-- "One trailing dot is ignored". -/
-def stripDot (s : List Char) : List Char :=
-  if s.getLast? = some '.' then s.dropLast else s
 
 /-- A label of a guard, taken apart. -/
 inductive GLabel where
